@@ -19,6 +19,14 @@ T = {
                 text="CRC is a fold over a 16-bit state: TLC proves the table step equal to the normative bit-serial step on the transition space, the implementation is compared with "
                      "that table on all 2^24 (state, byte) pairs, and CRC16 outputs, RTU trailers and CRC-verifying parsers (all 65536 trailers) are validated by TLC.",
                 note="assumes CRC16 is a fold over one 16-bit state from CRC16(empty); the harness' one-line TableStep transcription is trusted (its table comes from TLC)"),
+    "C04": dict(cat=MC, sec="3/C04", technique="TLA+ Registers spec (window, byte/word order permutations) + TLC case generation + TLC trace validation",
+                text="TLC generates window shapes (incl. windows ending at 65535) x 23 accessors x orders x probe addresses; the real accessors run on pairwise-distinct payloads inside a "
+                     "sentinel buffer; TLC validates every returned value / refusal against the spec; every address is swept for small windows (range events).",
+                note="byte/word order convention = the library's documented table; Go's bit-pattern-to-float/int casts trusted"),
+    "C13": dict(cat=MC, sec="3/C13", technique="TLA+ Registers state machine (payload' = payload) model-checked + all call histories replayed on the real code and trace-validated",
+                text="TLC checks the Registers state machine (and shows with an in-place-swap variant that the property is not vacuous), enumerates ALL call histories of length <= 3 (4) over 18 "
+                     "representative calls; the real code executes them on one shared response and TLC validates each step against the original payload.",
+                note="payload content: two patterns"),
     "C09": dict(cat=MC, sec="3/C09", technique="spec-encoded request frames + TLC trace validation of parser round trips, 16-bit field sweeps as range events",
                 text="request frames encoded by the specification (legal and out-of-limit) are parsed by dispatchers and per-function parsers (TCP, RTU+CRC, RTU without trailer); TLC "
                      "checks equality with the original, re-encoding, and refusal of out-of-limit values; every 16-bit quantity value is swept.",
